@@ -107,7 +107,7 @@ Fixpoint pushes (p : part) : pushl :=
   | PAlias nm q => pushes q ++ match collect q with [] => [] | ps => [(nm, ps)] end
   | POpt q | PScope q => pushes q
   | PSeq a b | PChoice a b => pushes a ++ pushes b
-  | PEmpty | PList _ _ | PCmd _ => []
+  | PEmpty | PList _ _ | PCmd _ | PMark _ => []
   end.
 
 (* the position lists pushed under the base name nm: occurrence 0, 1, 2, ... *)
@@ -408,6 +408,7 @@ Proof.
   - specialize (IHp s). destruct (convert p s) as [q' s1]. cbn [fst snd collect] in *.
     destruct (collect q') eqn:E; [constructor|]. now rewrite push_name_pos.
   - constructor.
+  - constructor.
 Qed.
 
 Lemma convert_inv : forall p s l, inv l s ->
@@ -447,6 +448,7 @@ Proof.
     apply Forall_app. split; [exact Hc|]. constructor; [|constructor].
     exists l, []. cbn [snd ca_names ca_maxpos]. split; [now rewrite app_nil_r|]. split; [|exact Hb].
     unfold cur_names. destruct (c_stack s) as [|m r]; [exact Ht|]. now inversion Hs.
+  - cbn [fst snd pushes]. now rewrite app_nil_r.
 Qed.
 
 Lemma inv_init : inv [] (mkC [] [] 1 []).
@@ -516,6 +518,7 @@ Proof.
   - specialize (IHp s). destruct (convert p s) as [q' s1]. cbn [snd] in *.
     destruct (collect q'); [exact IHp|]. rewrite push_name_fun, on_both_stack.
     destruct (c_stack s1); cbn [length] in *; exact IHp.
+  - reflexivity.
   - reflexivity.
 Qed.
 
@@ -588,6 +591,7 @@ Proof.
       * right. split; [exact Hq|]. now exists x.
   - apply IHp.
   - apply IHp.
+  - split; [intros [] | intros (_ & x & [<-|[]] & [])].
   - split; [intros [] | intros (_ & x & [<-|[]] & [])].
 Qed.
 
